@@ -205,11 +205,15 @@ func VerifC16_Handler() {
 	if verifapi.Bool("broker.sendsRelayURL") {
 		given = "broker-relay"
 	}
-	var remote net.Addr
-	if verifapi.Bool("hasRemote") {
-		remote = &net.IPAddr{}
+	// the remote address is what the real webRTCConn.RemoteAddr computes for the session's SDP:
+	// an address, or nothing when the description yields none
+	conn := &webRTCConn{pc: new(webrtc.PeerConnection)}
+	remote := conn.RemoteAddr()
+	if remote != nil {
+		verifapi.Cover("handler: client address known")
 	}
-	panicked := verifapi.ExpectPanic(func() { sf.datachannelHandler(&webRTCConn{}, remote, given) })
+	// (only the process exit of log.Fatalf is an expected outcome here; a Go panic is a violation)
+	panicked := verifapi.ExpectExit(func() { sf.datachannelHandler(conn, remote, given) })
 	if panicked {
 		verifapi.Cover("handler: invalid operator URL")
 		return // log.Fatalf on an unparseable relay URL (validated at Start; not a slot question)
@@ -333,4 +337,14 @@ func VerifC06_TwoProxies() {
 		sf.runSession("sid") // verifMakePC asserts membership against sf's own pattern
 	}
 	verifapi.Cover("two proxies ran a session each")
+}
+
+func verifRemoteDescription16(pc *webrtc.PeerConnection) *webrtc.SessionDescription {
+	return &webrtc.SessionDescription{Type: webrtc.SDPTypeOffer, SDP: "sdp"}
+}
+func verifRemoteIPFromSDP16(sdp string) net.IP {
+	if verifapi.Bool("sdp has a usable address") {
+		return net.IP{198, 51, 100, 7}
+	}
+	return nil
 }
